@@ -21,7 +21,7 @@ RULE = (
 )
 ASSUMPTIONS = [
     "error constants (16 for spectra, 6 elsewhere) calibrated on the unchanged tree: worst observed ratios 1.30 and 0.39 of the unit bound",
-    "default (rocket-fft / numba) transform functions only; user-supplied fftn callables are out of scope",
+    "transform backends: the default (rocket-fft / numba) functions and numpy.fft.rfft/irfft passed as fftn=/ifftn=; other user-supplied callables are out of scope",
 ]
 
 EPS32 = float(np.finfo(np.float32).eps)
@@ -86,7 +86,11 @@ def check(case, ctx):
         except Exception as exc:  # noqa: BLE001
             raise Violation(f"{name}:raised:{type(exc).__name__}", f"{ctxt}: {exc!r}") from exc
 
-    fs = call("rfft", ts.rfft)
+    # transform backend: the library's own (rocket-fft) or a user-supplied one with numpy's calling convention, which
+    # the API accepts (`fftn=` / `ifftn=`): the padding to the transform length is the library's job either way
+    numpy_backend = case.get("backend", "default") == "numpy"
+    ctxt += " backend=" + case.get("backend", "default")
+    fs = call("rfft", (lambda: ts.rfft(fftn=np.fft.rfft)) if numpy_backend else ts.rfft)
     L = int(fs.header.nsamples)
     require(L >= n, "rfft:transform-length", f"{ctxt}: L={L} < n")
     if fs.data.shape != (L // 2 + 1,):
@@ -114,7 +118,7 @@ def check(case, ctx):
     if abs(pars - nx * nx) > 6 * EPS32 * lg * nx * nx + 1e-300:
         raise Violation("rfft:parseval", f"{ctxt} L={L}: sum|x|^2={nx * nx!r}, spectrum gives {pars!r}")
     # inverse
-    back = call("ifft", fs.ifft)
+    back = call("ifft", (lambda: fs.ifft(ifftn=np.fft.irfft)) if numpy_backend else fs.ifft)
     if back.data.shape != (L,):
         raise Violation("ifft:length", f"{ctxt}: inverse has {back.data.shape[0]} samples, transform length {L}")
     if np.any(np.abs(back.data.astype(np.float64) - xp) > 6 * EPS32 * lg * nx):
@@ -167,7 +171,7 @@ def check(case, ctx):
         require(np.array_equal(np.asarray(ts.data), x), "correlate:self-modified", ctxt)
     # the transforms above must not have modified their inputs either
     require(np.array_equal(np.asarray(fs.data), X.astype(np.complex64)), "ifft:input-modified", ctxt)
-    labels = [kind]
+    labels = [kind, "backend_" + case.get("backend", "default")]
     if L != n:
         labels.append("padded")
     if L % 2:
@@ -185,7 +189,7 @@ def enum_sweep(tier):
             if tier == "quick" and n > 64 and (n + i) % 2:
                 continue
             m = 1 + (n * 7 + i * 13) % n
-            yield {"n": n, "m": m, "kind": kind, "seed": n * 4 + i}
+            yield {"n": n, "m": m, "kind": kind, "seed": n * 4 + i, "backend": "numpy" if (n + i) % 3 == 0 else "default"}
 
 
 def strat_random(tier):
@@ -195,7 +199,8 @@ def strat_random(tier):
     def s(draw):
         n = draw(st.one_of(st.integers(1, 300), st.integers(1, nmax)))
         m = draw(st.one_of(st.integers(1, n), st.integers(1, min(n, 16)), st.just(n)))
-        return {"n": n, "m": m, "kind": draw(st.sampled_from(KINDS)), "seed": draw(st.integers(0, 2**31 - 1))}
+        return {"n": n, "m": m, "kind": draw(st.sampled_from(KINDS)), "seed": draw(st.integers(0, 2**31 - 1)),
+                "backend": draw(st.sampled_from(["default", "default", "numpy"]))}
 
     return s()
 
